@@ -106,6 +106,9 @@ def run_checks(meta, pid, checks, tier, patch, demo, src, name, result, ran):
         try:
             if rc != 0:
                 print("cannot apply to /repo: " + out)
+                if "--recheck" in sys.argv:
+                    print(name, "STALE: the stored patch no longer applies to the current tree (a later fix: commit touched the same lines); earlier result kept")
+                    return 0
             else:
                 for chk in checks:
                     c = "python3 verif.py check %s --tier %s" % (chk, tier)
